@@ -72,13 +72,13 @@ def _kill_filter(kill_when):
 def run_program(prog, prefix=(), kinds=("P", "T", "K"), kill_code=-9, track_states=True,
                 monitors=(), horizon=50_000, kill_when=None, starve=None, p_scope=None,
                 t_scope=None, t_when=None, p_when=None, t_cur=None,
-                zero_when=None, lines=None):
+                zero_when=None, lines=None, p_cur=None):
     pool = prog.get("pool", {})
     S = K.Sched(prefix, kinds=kinds, kill_code=kill_code, horizon=horizon,
                 pipe_cap=pool.get("pipe_cap", 65536), track_states=track_states,
                 kill_filter=_kill_filter(kill_when), starve=starve, p_scope=p_scope,
                 t_scope=t_scope, t_when=t_when, p_when=p_when, t_cur=t_cur,
-                zero_when=zero_when, lines=lines)
+                zero_when=zero_when, lines=lines, p_cur=p_cur)
     K.S = S
     tasks.reset()
     gc_was = gc.isenabled()
